@@ -185,6 +185,10 @@ class HSFZConnection:
             logger.debug(f"read worker received EOF: {e}")
         except Exception as e:
             logger.critical(f"read worker died: {e}")
+        finally:
+            # Nobody feeds the queue any more. Wake up a consumer which waits in
+            # read_frame(); _unpack_frame() closes the connection and raises BrokenPipeError.
+            self._read_queue.put_nowait(HSFZStatus.UNDEFINED)
 
     async def _unpack_frame(self, frame: HSFZDiagFrame | int) -> HSFZDiagFrame:
         # I little hack, but it is either a tuple or an int….
